@@ -103,6 +103,61 @@ pub fn body(nrec: usize, pre_max: usize, witness: bool) {
     fs::cleanup();
 }
 
+/// Constant-size variant (DESIGN.md 9.8, rule 23): the number of appends, every record's length,
+/// its split into one or two `write_all` calls and the amount of pre-existing content are instance
+/// parameters; solver variables: the open mode (append / truncate), whether the file exists when
+/// there is no content, and every byte of every record.
+pub fn body_sized(lens: &'static [usize], two: bool, pre: usize, witness: bool) {
+    fs::reset();
+    #[cfg(kani)]
+    crate::wfile::reset();
+    let f = fs::add_name("f.log", 0);
+    let exists = pre > 0 || sym::any_bool();
+    let pre_bytes = [0xA1u8, 0xA2, 0xA3];
+    if exists {
+        fs::put(f, &pre_bytes[..pre]);
+    }
+    let append_mode = sym::any_bool();
+    let path = fs::path(f);
+    let app = match FileAppender::builder().encoder(Box::new(HEnc)).append(append_mode).build(&path) {
+        Ok(a) => a,
+        Err(_) => panic!("build failed on a fault-free disk"),
+    };
+    let mut exp = [0u8; fs::CAP];
+    let mut n = 0;
+    if append_mode && exists {
+        for i in 0..pre {
+            exp[n] = pre_bytes[i];
+            n += 1;
+        }
+    }
+    check(f, &exp, n);
+    let record = Record::builder().build();
+    for k in 0..lens.len() {
+        let len = lens[k];
+        let val = sym::any_u8();
+        unsafe {
+            REC_LEN = len;
+            REC_VAL = val;
+            TWO_CHUNKS = two;
+        }
+        let res = app.append(&record);
+        assert!(res.is_ok(), "append succeeds on a fault-free disk");
+        for _ in 0..len {
+            exp[n] = val;
+            n += 1;
+        }
+        check(f, &exp, n);
+    }
+    cover!(append_mode || pre == 0, "append mode");
+    cover!(!append_mode || pre == 0, "truncate mode");
+    if witness {
+        assert!(false, "WITNESS");
+    }
+    std::mem::forget(app);
+    fs::cleanup();
+}
+
 fn check(slot: usize, exp: &[u8; fs::CAP], n: usize) {
     match fs::get(slot) {
         Some((len, data)) => {
@@ -137,6 +192,18 @@ harnesses! {
         #[cfg_attr(kani, kani::stub(<log4rs::encode::pattern::PatternEncoder as log4rs::encode::Encode>::encode, crate::util::stub_pattern_encode_cut))]
         #[cfg_attr(kani, kani::stub(log4rs::encode::pattern::PatternEncoder::new, crate::util::stub_pattern_new_cut))]
     }
+    #[kani::unwind(10)]
+    fn sized_3_pre2() { body_sized(&[3], false, 2, false) }
+    #[kani::unwind(10)]
+    fn sized_3_pre2_witness() { body_sized(&[3], false, 2, true) }
+    #[kani::unwind(10)]
+    fn sized_2_0_1_pre0() { body_sized(&[2, 0, 1], true, 0, false) }
+    #[kani::unwind(10)]
+    fn sized_4_4_pre3() { body_sized(&[4, 4], true, 3, false) }
+    #[kani::unwind(10)]
+    fn sized_1_1_1_1_pre1() { body_sized(&[1, 1, 1, 1], false, 1, false) }
+    #[kani::unwind(10)]
+    fn sized_0_pre0() { body_sized(&[0], false, 0, false) }
     #[kani::unwind(10)]
     fn file_1rec() { body(1, 2, false) }
     #[kani::unwind(10)]
